@@ -8,6 +8,7 @@ import (
 	"gitlab.com/yawning/secp256k1-voi/secec/bitcoin"
 
 	"verifharness/gen"
+	"verifharness/hk"
 	"verifharness/mon"
 	"verifharness/oracle"
 )
@@ -232,6 +233,119 @@ func runC13(r *mon.Run) {
 		key[0] ^= 0xff
 		if !bytes.Equal(k.Bytes(), keep) {
 			w.Fail("c13/NewSchnorrPublicKey:alias", "mutating the caller's slice changed the key")
+		}
+	})
+
+	// --- parse stage (hook): r >= p and s >= n are rejected, never reduced ---------------
+	// A signature with r or s out of range can only be told from "reduced and then
+	// verified" if the reduced signature is VALID, which needs r < 2^32+977 or
+	// s < 2^256-n: unreachable through honest signing (2^-128) and not constructible
+	// (the challenge hashes r).  The parse stage itself is therefore observed.
+	if !hk.HaveBtcParse {
+		r.Note("hook group verif_btcparse unavailable: the parse stage (r < p, s < n rejected rather than reduced) is observed through Verify's verdict only")
+		return
+	}
+	r.Require("c13:parse:ok", "c13:parse:r>=p", "c13:parse:s>=n", "c13:parse:len", "c13:parse:r+p-alias", "c13:parse:s+n-alias", "c13:finalR:inf", "c13:finalR:odd-y", "c13:finalR:x-mismatch", "c13:finalR:ok")
+	r.Each("c13/parse-stage", r.N(6000, 300000), func(w *mon.W, i int) {
+		rng := w.Rng
+		pk := rng.Bytes(32)
+		msg := rng.Bytes([]int{0, 1, 32, 33, 129, 300}[i%6])
+		var rv, sv *big.Int
+		cl := "ok"
+		switch i % 8 {
+		case 0, 1:
+			rv, _ = rng.Value(bigP)
+			sv, _ = rng.Value(n)
+		case 2:
+			// r in [p, 2^256): all 2^32+977 aliases r+p of tiny r, boundary values
+			rv = new(big.Int).Add(bigP, gen.Pick(rng, big.NewInt(0), big.NewInt(1), big.NewInt(int64(rng.Intn(1000))), new(big.Int).Sub(new(big.Int).Sub(oracle.Two256, bigP), big.NewInt(1)), rng.Below(new(big.Int).Sub(oracle.Two256, bigP))))
+			sv, _ = rng.Value(n)
+			cl = "r>=p"
+			w.Class("c13:parse:r+p-alias")
+		case 3:
+			rv, _ = rng.Value(bigP)
+			sv = new(big.Int).Add(n, gen.Pick(rng, big.NewInt(0), big.NewInt(1), big.NewInt(int64(rng.Intn(1000))), new(big.Int).Sub(new(big.Int).Sub(oracle.Two256, n), big.NewInt(1)), rng.Below(new(big.Int).Sub(oracle.Two256, n))))
+			cl = "s>=n"
+			w.Class("c13:parse:s+n-alias")
+		case 4:
+			rv, sv = new(big.Int).Sub(bigP, big.NewInt(1)), new(big.Int).Sub(n, big.NewInt(1))
+		case 5:
+			rv, sv = new(big.Int).Sub(oracle.Two256, big.NewInt(1)), new(big.Int).Sub(oracle.Two256, big.NewInt(1))
+			cl = "r>=p"
+		default:
+			rv, sv = rng.Big256(), rng.Big256()
+			if rv.Cmp(bigP) >= 0 {
+				cl = "r>=p"
+			} else if sv.Cmp(n) >= 0 {
+				cl = "s>=n"
+			}
+		}
+		sig := append(b32(rv), b32(sv)...)
+		if i%16 == 15 {
+			switch rng.Intn(3) {
+			case 0:
+				sig = sig[:rng.Intn(64)]
+			case 1:
+				sig = append(sig, rng.Bytes(1+rng.Intn(66))...)
+			default:
+				sig = append(sig, sig...)
+			}
+			cl = "len"
+		}
+		w.Class("c13:parse:" + cl)
+		w.Case(true, []byte("parse"), pk, msg, sig)
+		keep := append([]byte{}, sig...)
+		ok, ls, le, rx := hk.ParseSchnorrSignature(pk, msg, sig)
+		if ok != (cl == "ok") {
+			w.Fail("c13/parse/"+cl, fmt.Sprintf("parse stage of Verify on sig=%x [%s]: ok=%v, BIP-340 requires %v (r < p, s < n, 64 bytes)", sig, cl, ok, cl == "ok"), "sig", hx(sig), "class", cl)
+			return
+		}
+		if !bytes.Equal(sig, keep) {
+			w.Fail("c13/parse:operand", "the parse stage modified the signature bytes")
+		}
+		if !ok {
+			return
+		}
+		if bigFromScalar(ls).Cmp(sv) != 0 || !bytes.Equal(rx, b32(rv)) {
+			w.Fail("c13/parse:value", fmt.Sprintf("parse stage returned s=%x r=%x for sig=%x", bigFromScalar(ls), rx, sig))
+		}
+		if e := oracle.BIP340Challenge(b32(rv), pk, msg); bigFromScalar(le).Cmp(e) != 0 {
+			w.Fail("c13/parse:challenge", fmt.Sprintf("challenge = %x, BIP-340 tagged hash mod n = %x (msg length %d)", bigFromScalar(le), e, len(msg)), "msg", hx(msg))
+		}
+		if i < 2 {
+			w.Sample(map[string]any{"monitor": "parse-stage", "sig": hx(sig), "class": cl})
+		}
+	})
+	pool := knownPointPool(r.Seed, 4)
+	r.Each("c13/final-R", r.N(2000, 60000), func(w *mon.W, i int) {
+		rng := w.Rng
+		P := pool[rng.Intn(len(pool))].P
+		z, _ := repZ(rng)
+		R := pointRep(P, z)
+		var rx []byte
+		want := false
+		switch {
+		case P.Inf:
+			rx = rng.Bytes(32)
+			if rng.Bool() {
+				rx = make([]byte, 32)
+			}
+			w.Class("c13:finalR:inf")
+		case rng.Chance(1, 3):
+			rx = b32(oracle.Mod(new(big.Int).Add(P.X, big.NewInt(int64(1+rng.Intn(3)))), bigP))
+			w.Class("c13:finalR:x-mismatch")
+		default:
+			rx = b32(P.X)
+			want = P.Y.Bit(0) == 0
+			if want {
+				w.Class("c13:finalR:ok")
+			} else {
+				w.Class("c13:finalR:odd-y")
+			}
+		}
+		w.Case(true, []byte("finalR"), oracle.EncodeCompressed(P), b32(z), rx)
+		if g := hk.VerifySchnorrSignatureR(rx, R); g != want {
+			w.Fail("c13/final-R", fmt.Sprintf("final R checks (not infinite, even y, x(R)=r) on R=%v [Z=%x], r=%x: %v, expected %v", P, z, rx, g, want))
 		}
 	})
 }
